@@ -89,7 +89,7 @@ class Run(Engine):
                 self.n_binary_killed += 1
                 out.append("binary-history-with-SIGKILL")
             for x in kills:
-                out.append("binary-kill:" + {"K": "during-command", "B": "before-write", "T": "torn-write", "A": "after-write"}.get(x[0], "?"))
+                out.append("binary-kill:" + {"K": "during-command", "B": "before-write", "T": "torn-write", "A": "after-write", "E": "write-error(no kill)"}.get(x[0], "?"))
         out.append("events:" + ("1-4" if len(evs) <= 4 else "5-8" if len(evs) <= 8 else "9+"))
         out.append("invocations:" + (str(len(runs)) if len(runs) <= 4 else "5+"))
         res = sec.get("RES", "")
@@ -105,7 +105,7 @@ class Run(Engine):
         for x in sec.get("CR", "").split("/"):
             x = x.strip()
             if x and x != "-":
-                out.append("kill:" + {"K": "during-command", "B": "before-write", "T": "torn-write", "A": "after-write"}.get(x[0], "?"))
+                out.append("kill:" + {"K": "during-command", "B": "before-write", "T": "torn-write", "A": "after-write", "E": "write-error(no kill)"}.get(x[0], "?"))
         for x in sec.get("ERR", "").split("/"):
             x = x.strip()
             if x in ("cache", "other", "panic", "bad"):
@@ -116,7 +116,7 @@ class Run(Engine):
 
     def rule(self, prop):
         base = ("histories over {write v1/v2, delete, remove .spok, toggle a task's failure, run a subset of tasks ± --force, "
-                "kill at a crash point, toggle a command's side effect (it overwrites a file when it runs)} on 10 spokfile templates (1-3 tasks; literal, glob, task dependencies, a dependency-less "
+                "kill at a crash point, make the j-th write of the cache file fail with an error (file untouched), toggle a command's side effect (it overwrites a file when it runs)} on 10 spokfile templates (1-3 tasks; literal, glob, task dependencies, a dependency-less "
                 "task, shared files, a file matched twice, a directory among the glob matches, a missing literal); corpus "
                 "(D1 witnesses) + ALL histories of depth 4 ending in a run on two or three templates (depth 5 in thorough) + "
                 "kill-point enumeration (every VerifPoint before/after every cache write, torn writes, Runner panics) + seeded "
@@ -145,7 +145,7 @@ ENGINE = Run()
 
 RUN_MODELLED = [
     "side effects of commands: a command may overwrite files (x events, in-process mode); every task is judged on the inputs it SAW when its turn came (reference snapshots after every Runner call), and for a task whose own command rewrites its own dependencies the inputs of its 'last success' are by convention those it saw before running; not modelled: files created or removed by commands during a run (glob expansions are taken once, before the first task), concurrent spok processes on one project",
-    "modelled: write(2)/os.WriteFile atomicity as 'any prefix of the new contents may be what is on disk' (truncate, then write, as two micro-steps); directory creation and the .gitignore/CACHEDIR.TAG writes of cache.Init are not crash points",
+    "modelled: write(2)/os.WriteFile atomicity as 'any prefix of the new contents may be what is on disk' (truncate, then write, as two micro-steps); directory creation and the .gitignore/CACHEDIR.TAG writes of cache.Init are not crash points; a write ERROR of the cache file (injected through the verif hook: the file cannot be opened for writing and stays as it was) is, for the file and for everything later, an invocation that ends just before that write, reported as an error instead of a kill",
     "SHA-256 / hash.Concurrent is a parameter `digest` of the model (never assumed injective: conclusions are '… or an explicit collision'); the oracle instantiates it with an injective code of the item list and the harness maps the real digests it computes with hash.New() to the same codes",
     "modelled: run order (dag.Sort) is observed and handed to the model as an oracle argument; glob expansion is compared against reference code of the harness through the digests found in .spok/cache.json",
 ]
